@@ -112,12 +112,33 @@ CHECKS = {
 NOT_YET = 'check not built yet in this session (planned: bounded exhaustive exploration, see DESIGN.md section 5); not claimed until its check exists'
 NA = {}
 
+
+# additions of the tenth round of seeded changes (appended to the level text; details in DESIGN.md section 5)
+EXTRA = {
+    'C01': ' Also every numeric constant (PI, E, INF, NAN) in 15 operand slots, and 11 characters outside ASCII at 6 positions of a name in 20 kinds of name slot.',
+    'C04': ' Also aliases bound by the middle / the last of three alias-binding alternatives.',
+    'C05': ' Every clash is also built bottom-up through the constructors.',
+    'C06': ' Predicates and properties are also printed through a twin whose parts are printed before and after the whole.',
+    'C07': ' Also quantifiers over set literals of 1-3 member kinds x 14 typed uses of the variable (type errors naming combinations of types).',
+    'C08': ' Also folded sums / lengths of literal ranges up to 2**64 equated with the exact integers.',
+    'C10': ' Also directly nested quantifiers (4 kind pairs) with inner domains built from the outer variable.',
+    'C11': ' Also alternatives whose predicate is the literal False.',
+    'C12': ' Also alternatives equal to / overlapping the other event of the pattern, False-predicate alternatives, and a window property built right after its same-text twin.',
+    'C13': ' Also quantifiers over literal ranges / sets that mention the message and the alias.',
+    'C14': ' Also every bracketing of four operands under + and * next to the literals -1, 0, 1, 2 under four operators.',
+    'C16': ' Equality / hash probed under the documented annotations id, title, description.',
+    'C17': ' Helper queries also on message types built from shared token objects.',
+    'C19': ' Also files just beyond 4 KiB - 128 KiB (thorough: 1 MiB).',
+    'C20': ' Constructor narrowing over 27 operand slots; bound variables used below nested quantifiers.',
+}
+
 def main():
     checks = []
     for cid in ALL:
         if cid not in CHECKS:
             continue
         text, note, tech = CHECKS[cid]
+        text = text + EXTRA.get(cid, '')
         checks.append({
             'property_id': cid,
             'quick_cmd': f'./check {cid} --tier quick',
